@@ -741,7 +741,7 @@ def registered_overlap(ctx):
         E.valid_keys = E.Get
         return E
     E3 = sub(EasyID3)
-    E3.RegisterTXXXKey("performer:special", "SPECIAL")
+    E3.RegisterTXXXKey("Performer:Special", "SPECIAL")        # registration is case-insensitive too
     E3.RegisterTXXXKey("replaygain_special_gain", "RGSPECIAL")
     E3.RegisterTextKey("performer:text", "TOFN")
     E4 = sub(EasyMP4Tags)
@@ -751,8 +751,8 @@ def registered_overlap(ctx):
     def xd(tags, key): del tags["----:com.apple.iTunes:" + key.upper()]
     def xl(tags, key): return [k.split(":")[-1].lower() for k in tags.keys() if k.startswith("----:com.apple.iTunes:X-")]
     E4.RegisterKey("x-*", xg, xs, xd, xl)
-    E4.RegisterTextKey("x-special", "\xa9spc")
-    E4.RegisterFreeformKey("x-free", "Exact Free")
+    E4.RegisterTextKey("X-Special", "\xa9spc")
+    E4.RegisterFreeformKey("X-Free", "Exact Free")
 
     def native3(o):
         i = o._EasyID3__id3
